@@ -484,7 +484,11 @@ pub fn run(report: &Report, thorough: bool) -> Evidence {
                         set(k, t as u64 + 1);
                         // (the context of this run was created with suggestions off when `init` is odd: the first
                         // update-engine call switches them on)
-                        let up = Ev::Update(Box::new(o.clone()));
+                        // (the update-engine calls in between alternate the candidate-list option: a re-load that happens while the
+                        // list is off must not be lost when it is switched on again)
+                        let mut o_mid = o.clone();
+                        o_mid.psugg = (t + init) % 2 == 1;
+                        let up = Ev::Update(Box::new(o_mid));
                         evs.push(up.clone());
                         if let Err(f) = live.apply(&up) {
                             report.add(fail_violation("C10", &f, &o, &evs).feat("fault", format!("auto-correct file states {:?} then {:?}", init, seqs[si])));
@@ -502,6 +506,15 @@ pub fn run(report: &Report, thorough: bool) -> Evidence {
                     }
                     if failed {
                         continue;
+                    }
+                    // a last update-engine to the configuration under test, the file untouched since the previous one
+                    {
+                        let up = Ev::Update(Box::new(o.clone()));
+                        evs.push(up.clone());
+                        if let Err(f) = live.apply(&up) {
+                            report.add(fail_violation("C10", &f, &o, &evs).feat("fault", format!("auto-correct file states {:?} then {:?}", init, seqs[si])));
+                            continue;
+                        }
                     }
                     let got = run_session(&mut live, &[Step::Type(0), Step::Type(2), Step::Type(3), Step::Type(4), Step::Type(5)]);
                     let mut fresh = match Ctx::new(&o) {
